@@ -277,9 +277,14 @@ def equal(interp, a, b):
             return c.kind == 8
         if isinstance(other, str):
             return z3.And(c.kind == 6, c.strval == z3.StringVal(other))
-        if isinstance(other, bool):
-            # python: True == 1 == 1.0; only int payload is modelled, floats/complex equal to 0/1 are not excluded
-            raise Undecided('== between symbolic constant and bool')
+        if other is None:
+            return c.kind == 0
+        if isinstance(other, bool) or (isinstance(other, int) and other in (0, 1)):
+            # python: True == 1 == 1.0 == (1+0j); the int payload is modelled, "the float/complex value is one/zero" is a free boolean per constant
+            one = bool(other)
+            num = z3.Bool('cnum_is_%s_%s' % ('one' if one else 'zero', c.name))
+            ctx.assume(z3.Not(z3.And(z3.Bool('cnum_is_one_' + c.name), z3.Bool('cnum_is_zero_' + c.name))))
+            return z3.Or(c.kind == (1 if one else 2), z3.And(c.kind == 3, c.intval == (1 if one else 0)), z3.And(z3.Or(c.kind == 4, c.kind == 5), num))
         raise Undecided('== between symbolic constant and %r' % (other,))
     if isinstance(a, Obj) and isinstance(b, Obj):
         da = ctx.data(a)
